@@ -80,14 +80,14 @@ Lemma t_C10_spec_validation_room : forall scid dcid ipn lens single udpMin plans
   validateSpecT scid dcid ipn lens single udpMin plans maxPacket tokLen = true ->
   validateSpec scid dcid ipn lens single udpMin plans maxPacket = true /\
   let mh := maxHdrLen scid dcid lens single tokLen in
-  mh + 20 <= maxPacket /\
-  Forall (fun p => mh + 20 <= planLimit maxPacket p /\
+  mh + 27 <= maxPacket /\
+  Forall (fun p => mh + 27 <= planLimit maxPacket p /\
                    (0 < fst p -> mh + 1 + 4 + vlen (fst p) + fst p < planLimit maxPacket p - 16)) plans.
 Proof. exact validateSpecT_spec. Qed.
 
 Lemma t_C10_validation_room_regression :
   validateSpec 0 8 1 [] 1 0 [] 1280 = true /\ validateSpecT 0 8 1 [] 1 0 [] 1280 1300 = false /\
-  validateSpecT 0 8 1 [] 1 0 [] 1280 1240 = true /\
+  validateSpecT 0 8 1 [] 1 0 [] 1280 1240 = false /\ validateSpecT 0 8 1 [] 1 0 [] 1280 1233 = true /\
   validateSpec 0 8 1 [] 1 0 [(1300, 0)] 1280 = true /\ validateSpecT 0 8 1 [] 1 0 [(1300, 0)] 1280 0 = false /\
   validateSpecT 0 8 1 [] 1 0 [(1160, 1200)] 1280 0 = false /\
   validateSpecT 0 8 1 [1; 2] 0 0 [(999, 1200); (0, 1200)] 1280 70 = true /\
